@@ -44,8 +44,9 @@ theorem C17_formula (tp lp comp : Nat) (ht : tp ≤ 126) (hl : lp ≤ 65535) (hc
     priority tp lp comp = 2 ^ 24 * tp + 2 ^ 8 * lp + (256 - comp) := by
   unfold priority; omega
 
-/-- … and the value is in 0..2^31−1, at least 1 for components 1..255. -/
-theorem C17_range (tp lp comp : Nat) (ht : tp ≤ 126) (hl : lp ≤ 65535) (hc : comp ≤ 256) :
+/-- … and the value is in 0..2^31−1 for EVERY component (also the ids above 256 that the uint16 subtraction
+wraps), at least 1 for components 1..255. -/
+theorem C17_range (tp lp comp : Nat) (ht : tp ≤ 126) (hl : lp ≤ 65535) :
     priority tp lp comp < 2 ^ 31 ∧ (1 ≤ comp → comp ≤ 255 → 1 ≤ priority tp lp comp) := by
   unfold priority; omega
 
@@ -53,11 +54,11 @@ theorem C17_range (tp lp comp : Nat) (ht : tp ≤ 126) (hl : lp ≤ 65535) (hc :
 theorem candViolation_none (i : CandIn) (o : CandOut) (h1 : o.tp ≤ 126) (h2 : o.tp = expectedTP i)
     (h3 : o.lp = expectedLP i)
     (h4 : i.component ≤ 256 → o.prio = 16777216 * o.tp + 256 * o.lp + (256 - i.component))
-    (h5 : i.component ≤ 256 → o.prio < 2147483648)
+    (h5 : o.prio < 2147483648)
     (h6 : 1 ≤ i.component → i.component ≤ 255 → 1 ≤ o.prio) : candViolation i o = none := by
   unfold candViolation
   rw [if_neg (by omega), if_neg (by simp [h2]), if_neg (by simp [h3]),
-    if_neg (fun h => h.2 (h4 h.1)), if_neg (fun h => absurd (h5 h.1) (by omega)),
+    if_neg (fun h => h.2 (h4 h.1)), if_neg (by omega),
     if_neg (fun h => absurd (h6 h.1 h.2.1) (by omega))]
 
 /-- Every output of the model passes the spec monitor of C17 (all clauses at once). -/
@@ -67,15 +68,15 @@ theorem C17_model_passes_monitor (i : CandIn) :
   have h2 := C17_local_pref i
   have h3 := fun h => C17_formula (typePreference i.ty i.isTCP i.offset)
     (localPreference i.ty i.isTCP i.tt (relayPref i.relayProto)) i.component h1.2 h2.2 h
-  have h4 := fun h => C17_range (typePreference i.ty i.isTCP i.offset)
-    (localPreference i.ty i.isTCP i.tt (relayPref i.relayProto)) i.component h1.2 h2.2 h
+  have h4 := C17_range (typePreference i.ty i.isTCP i.offset)
+    (localPreference i.ty i.isTCP i.tt (relayPref i.relayProto)) i.component h1.2 h2.2
   apply candViolation_none
   · exact h1.2
   · exact h1.1
   · exact h2.1
   · intro h; have := h3 h; simp only [modelOut]; omega
-  · intro h; have := (h4 h).1; simp only [modelOut]; omega
-  · intro ha hb; exact (h4 (by omega)).2 ha hb
+  · have := h4.1; simp only [modelOut]; omega
+  · intro ha hb; exact h4.2 ha hb
 
 /-- The same for the code: the functions regenerated from candidate_base.go / candidatetype.go /
 candidate_relay.go, composed as `Priority()` composes them, pass the monitor for ALL receiver states. -/
